@@ -10,6 +10,7 @@ import (
 	"regexp"
 	"sort"
 	"strconv"
+	"strings"
 	"sync"
 	"time"
 )
@@ -120,7 +121,16 @@ func (r *Run) Add(key string, n int64) {
 	r.mu.Unlock()
 }
 
-func (r *Run) Rule(s string)   { r.rule = s }
+// Rule describes what is enumerated; repeated calls add parts.
+func (r *Run) Rule(s string) {
+	r.mu.Lock()
+	defer r.mu.Unlock()
+	if r.rule == "" {
+		r.rule = s
+	} else if !strings.Contains(r.rule, s) {
+		r.rule += " || " + s
+	}
+}
 func (r *Run) Assume(s string) { r.mu.Lock(); r.assumptions = append(r.assumptions, s); r.mu.Unlock() }
 
 // Capped records that part of the declared space was not finished.
